@@ -678,7 +678,16 @@ def network(profile="exact", max_ops=6, dtypes=("int8", "int8", "int8", "uint8",
         else:
             h, w, c = draw(dim), draw(dim), draw(st.one_of(st.integers(1, 8), st.integers(1, 40), st.sampled_from([3, 8, 16, 17, 32])))
         q = nb.quant(dt)
-        x = nb.t("input", [1, h, w, c], dt, q[0], q[1])
+        in_shape = [1, h, w, c]
+        if profile == "tall":
+            # one very long dimension (rank 2-4): reductions, soft-max rows and fully connected layers over thousands of elements, limits of the documented ranges
+            big_n = draw(st.sampled_from([257, 1024, 4095, 4096, 4097, 5000, 8192, 16384, 32768, 65535]))
+            small = draw(st.integers(1, 8))
+            in_shape = draw(st.sampled_from([[big_n, small], [small, big_n], [1, big_n, small], [1, small, big_n], [big_n, 1, small], [1, big_n, 1, small], [1, 1, big_n, small],
+                                             [1, small, 1, big_n], [1, 2, big_n // 2, small]]))
+            if int(math.prod(in_shape)) > 300000:
+                in_shape = [d_ if d_ != small else 1 for d_ in in_shape]
+        x = nb.t("input", in_shape, dt, q[0], q[1])
         nb.inputs.append(x)
         cur = x
         history = [x]
@@ -807,6 +816,9 @@ def network(profile="exact", max_ops=6, dtypes=("int8", "int8", "int8", "uint8",
         if profile == "luts":  # many table-driven activations in one NPU subgraph: LUT slot allocation, eviction and re-use (tables repeat because quantisations repeat)
             menu = ["logistic", "tanh", "hswish", "lrelu", "logistic", "tanh", "hswish", "lrelu", "add_const", "relu", "conv", "softmax", "softmax", "softmax", "exp", "gelu", "sqrt", "log", "rsqrt"]
             n_ops = draw(st.integers(4, max(max_ops, 4)))
+        if profile == "tall":
+            menu = ["mean", "mean", "mean", "softmax", "fc", "relu", "reshape", "add_const", "maxpool", "quantize", "logistic"]
+            n_ops = draw(st.integers(1, 2))
         if profile == "elementwise":  # binary operators with every broadcast form in either operand position, constants and scalars, chained
             menu = ["add", "sub", "sub", "mul", "maximum", "minimum", "add_const", "mul_const", "sub_const", "relu", "quantize", "reshape"]
             n_ops = draw(st.integers(1, max_ops))
@@ -830,6 +842,8 @@ def network(profile="exact", max_ops=6, dtypes=("int8", "int8", "int8", "uint8",
                     kind = "conv"
             if not r4 and kind in ("conv", "dw", "dw_same", "unsupported_conv", "maxpool", "avgpool_valid", "avgpool_same", "padconv", "tconv", "resize_nearest", "resize_bilinear") or (kind == "mean" and len(X["shape"]) not in (2, 3, 4)):
                 kind = draw(st.sampled_from(["fc", "add_const", "reshape", "relu", "mul_const"]))
+            if len(X["shape"]) == 0 and kind not in ("relu", "relu6", "quantize"):
+                kind = "relu"  # a scalar (everything reduced away): only element-wise operators apply
             if X["dtype"] == "int16" and kind in ("avgpool_same", "resize_bilinear", "hswish", "tconv", "mean", "softmax", "logistic", "tanh"):
                 kind = "relu"
             if int(math.prod(X["shape"])) > 200000:
